@@ -239,3 +239,179 @@ class VecToList(_Vec):
         cx.prove("None exactly at the missing positions, values elsewhere",
                  z3.Implies(in_range(j, v.sym["len"]), s.at(j) == z3.If(na_formula(cx.it, v.sym["kind"], v.sym["elem"](j)), NONE, v.sym["elem"](j))))
         cx.prove("frame:no-write-into-input-buffers", not ghost(cx.ctx)["input_writes"])
+
+
+# =========================================================================================
+# C11: sort, rank, unique
+# =========================================================================================
+def optimize_for_argsort_contract(it, args, kwargs):
+    """Callee contract of Vector._optimize_for_argsort (bounded stand-in only, see OptimizeForArgsortBounded): an array
+    of the same length whose elements compare (== and <) exactly like the receiver's - the receiver itself or, for
+    short strings, a fixed-width copy."""
+    a = args[0]
+    ctx = it.ctx
+    if a.seq.sort != V:
+        return a
+    s = a.seq
+    img = ctx.fresh_fn("optimg", V, V)
+    x, y = z3.Consts("x!opt y!opt", V)
+    from pyvc.core import v_lt
+    ctx.assumptions.append(z3.ForAll([x, y], z3.And((img(x) == img(y)) == (x == y), v_lt(img(x), img(y)) == v_lt(x, y)),
+                                     patterns=[z3.MultiPattern(img(x), img(y))]))
+    ctx.assumptions.append(z3.ForAll([x], z3.And(is_nan(img(x)) == is_nan(x), is_nat(img(x)) == is_nat(x)), patterns=[img(x)]))
+    # the result is either the receiver or a converted copy; both cases are covered by one order-isomorphic image
+    same = ctx.fresh("opt_is_self", BOOL)
+    k = z3.If(same, kind_term(a.kind), z3.IntVal(KCODE["fixedstr"]))
+    ctx.assume(z3.Implies(z3.Not(same), kind_term(a.kind) == KCODE["string"]))
+    ctx.assume(z3.Implies(same, z3.ForAll([x], img(x) == x)))
+    out = NDArr(ctx, Seq(s.len, lambda j: img(s.at(j)), V), k, "fresh", a.cls)
+    return out
+
+
+S_CALLEES = dict(V_CALLEES)
+S_CALLEES["Vector._optimize_for_argsort"] = optimize_for_argsort_contract
+
+
+def total_order(cx, v):
+    """Precondition: the non-missing elements are mutually comparable (strict total order v_lt)."""
+    from pyvc.core import v_lt
+    ctx = cx.ctx
+    x, y, z = z3.Consts("x!to y!to z!to", V)
+    ctx.assumptions.append(z3.ForAll([x], z3.Not(v_lt(x, x)), patterns=[v_lt(x, x)]))
+    ctx.assumptions.append(z3.ForAll([x, y, z], z3.Implies(z3.And(v_lt(x, y), v_lt(y, z)), v_lt(x, z)),
+                                     patterns=[z3.MultiPattern(v_lt(x, y), v_lt(y, z))]))
+    i, j = z3.Ints("i!to j!to")
+    e = v.sym["elem"]
+    ctx.assumptions.append(z3.ForAll([i, j], z3.Implies(z3.And(in_range(i, v.sym["len"]), in_range(j, v.sym["len"]), e(i) != e(j)),
+                                                        z3.Or(v_lt(e(i), e(j)), v_lt(e(j), e(i)))),
+                                     patterns=[z3.MultiPattern(e(i), e(j))]))
+
+
+class _VecSort(Contract):
+    """Vector.sort: a permutation of the elements; the non-missing ones first, ordered in the requested direction;
+    the missing ones last (both directions)."""
+    file, qualname, prop = F, "Vector.sort", "C11"
+    also = ("C06",)
+    callees = S_CALLEES
+    direction = 1
+    cases = {k: (lambda kk: lambda cx, inp: inp["self"].sym["kind"] == KCODE[kk])(k)
+             for k in ("int", "float", "datetime", "string", "fixedstr", "bool")}
+
+    def setup(self, cx):
+        v = sym_vector(cx, "self")
+        total_order(cx, v)
+        return {"self": v, "kwargs": {"dir": self.direction}}
+
+    def ensures(self, cx, result):
+        from pyvc.core import v_lt
+        ctx, it = cx.ctx, cx.it
+        v = cx.inputs["self"]
+        if not vec_common(cx, result, v):
+            return
+        n, e, kind = v.sym["len"], v.sym["elem"], v.sym["kind"]
+        na = lambda x: na_formula(it, kind, x)
+        R = lambda j: M.to_v(it, result.seq.at(j))
+        cx.prove("same-length", zint(result.len) == n)
+        a, b = ctx.fresh("a", INT), ctx.fresh("b", INT)
+        pm = it.__dict__.get("last_argsort")
+        cx.prove("ghost:argsort-available", pm is not None)
+        if pm is None:
+            return
+        src = lambda j: pm.perm(j) if self.direction > 0 else pm.perm(n - 1 - j)      # position in self of new[j]
+        newna = lambda j: na(e(src(j)))
+        e1 = Enum.of(ctx, n, lambda j: z3.Not(newna(j)))
+        e2 = Enum.of(ctx, n, newna)
+        m = e1.cnt       # number of non-missing elements (the result being a permutation of self, proved below,
+        #                  this is also their number in self)
+        cx.prove("missing-last: exactly the positions from m on hold missing values", z3.Implies(in_range(a, n), na(R(a)) == (a >= m)))
+        lt = (lambda x, y: v_lt(x, y)) if self.direction > 0 else (lambda x, y: v_lt(y, x))
+        cx.prove("non-missing part ordered in the requested direction",
+                 z3.Implies(z3.And(0 <= a, a < b, b < m), z3.Not(lt(R(b), R(a)))))
+        sigma = lambda j: src(z3.If(j < e1.cnt, e1.idx(j), e2.idx(j - e1.cnt)))
+        tau = lambda i: (lambda t: z3.If(newna(t), e1.cnt + e2.rk(t), e1.rk(t)))(pm.inv(i) if self.direction > 0 else n - 1 - pm.inv(i))
+        cx.prove("perm: result[j] == self[sigma(j)], sigma into range", z3.Implies(in_range(a, n), z3.And(in_range(sigma(a), n), R(a) == e(sigma(a)))))
+        cx.prove("perm: counts add up", e1.cnt + e2.cnt == n)
+        cx.prove("perm: sigma is onto (tau is a right inverse)", z3.Implies(in_range(a, n), z3.And(in_range(tau(a), n), sigma(tau(a)) == a)))
+        cx.prove("perm: sigma is one-to-one (tau is a left inverse)", z3.Implies(in_range(a, n), tau(sigma(a)) == a))
+
+
+@register
+class VecSortAsc(_VecSort):
+    variant, direction = "ascending", 1
+
+
+@register
+class VecSortDesc(_VecSort):
+    variant, direction = "descending", -1
+
+
+@register
+class VecUnique(Contract):
+    """Vector.unique: each distinct value once (missing values count as one value), in order of first occurrence"""
+    file, qualname, prop = F, "Vector.unique", "C11"
+    also = ("C06",)
+    callees = S_CALLEES
+
+    def setup(self, cx):
+        v = sym_vector(cx, "self")
+        total_order(cx, v)
+        return {"self": v, "args": []}
+
+    def ensures(self, cx, result):
+        ctx, it = cx.ctx, cx.it
+        v = cx.inputs["self"]
+        if not vec_common(cx, result, v):
+            return
+        n, e = v.sym["len"], v.sym["elem"]
+        q = z3.Int("q!vu")
+        same = lambda p, r: z3.Or(e(p) == e(r), z3.And(is_nan(e(p)), is_nan(e(r))), z3.And(is_nat(e(p)), is_nat(e(r))))
+        first = lambda i: z3.Not(z3.Exists([q], z3.And(0 <= q, q < i, same(q, i))))
+        en = Enum.of(ctx, n, first)
+        j = ctx.fresh("j", INT)
+        cx.prove("length = number of distinct values", zint(result.len) == en.cnt)
+        cx.prove("elements = first occurrences, in order of first occurrence",
+                 z3.Implies(in_range(j, en.cnt), M.to_v(it, result.seq.at(j)) == e(en.idx(j))))
+        cx.prove("dtype-kind-kept", kind_term(result.kind) == v.sym["kind"])
+
+
+@register
+class VecRankBounded(Contract):
+    """Vector.rank: the counting core (np.unique inverse, bincount, cumsum) is a cardinality argument outside the
+    prover's reach.  Deductive part: an empty vector gives an empty integer vector.  The rank formulas themselves
+    ('min' = 1 + number of elements strictly before, 'max' = number before or equal, 'ordinal' = position in the
+    stable sort, missing values after all others) are a BOUNDED run-time contract that runs in every tier."""
+    file, qualname, prop, variant = F, "Vector.rank", "C11", "empty vector (proved); formulas bounded"
+    callees = S_CALLEES
+    always_bounded = True
+
+    def setup(self, cx):
+        v = sym_vector(cx, "self")
+        cx.assume(v.sym["len"] == 0)
+        return {"self": v, "kwargs": {"method": "min"}}
+
+    def ensures(self, cx, result):
+        ok = isinstance(result, NDArr)
+        cx.prove("empty-in-empty-out", ok and conc(result.len) == 0)
+        cx.prove("integer-dtype", ok and result.kind == "int")
+
+
+@register
+class OptimizeForArgsortBounded(Contract):
+    """Vector._optimize_for_argsort: the order-isomorphism used as callee contract by sort / unique / rank / DataFrame.sort
+    rests on NumPy's string casts and is only checked by a BOUNDED run-time contract (runs in every tier)."""
+    file, qualname, prop, variant = F, "Vector._optimize_for_argsort", "C11", "order-isomorphism: bounded only"
+    also = ("C03",)
+    lemma_only = True
+    always_bounded = True
+
+    def setup(self, cx):
+        return {"self": None}
+
+    def ensures(self, cx, result):
+        import ast as _a
+        from pyvc.extract import RepoModule
+        node = RepoModule.load(F, cx.it.repo).find("Vector._optimize_for_argsort")[0]
+        rets = [n for n in _a.walk(node) if isinstance(n, _a.Return)]
+        cx.prove("structure: returns the receiver or an astype() copy", all(
+            (isinstance(r.value, _a.Name) and r.value.id == "self") or
+            (isinstance(r.value, _a.Call) and isinstance(r.value.func, _a.Attribute) and r.value.func.attr == "astype") for r in rets))
